@@ -79,7 +79,7 @@ def run(rng, tier):
                     yield case, _cmp(r.data, PA.powc(x, r_), True, tol=1e-9)
                 # integer powers are defined (no division) at a vanishing or tiny zeroth coefficient: exact repeated Cauchy product
                 if not xc:
-                    for r_ in (2, 3, 4, 5, 7):
+                    for r_ in (2, 3, 4, 5, 7, numpy.int64(3), numpy.int32(2), numpy.int64(1), numpy.int64(0)):          # an integer exponent taken from an array (numpy.integer) is an integer exponent
                         for x0v in (0.0, 1e-100):
                             xz = x.copy(); xz[0] = x0v
                             if D > 1 and shp: xz[0][(0,) * (xz[0].ndim - 1) + (-1,)] = 0.75           # a regular entry next to the special ones
